@@ -1,19 +1,6 @@
-from common import STATEX_ASSUME
+from common import STATEX_ASSUME, splice_qbft
 
 
-def splice_qbft(src, out):
-    """Insert the state-snapshot call at the top of qbft.Run's event loop (anchor: the comment + `for {`)."""
-    import os
-    s = open(src).read()
-    anchor = "\t// Handle events until cancelled.\n\tfor {\n"
-    if s.count(anchor) != 1:
-        return None
-    call = ("\t\tverifSnapshot(ctx, process, round, any(inputValue), any(ppjCache), preparedRound, any(preparedValue), compareFailureRound,\n"
-            "\t\t\tany(preparedJustification), any(qCommit), any(qCommitValue), any(buffer), dedupRules, decidedResends, timerChan != nil, inputValueCh != nil)\n")
-    s = s.replace(anchor, anchor + call)
-    os.makedirs(os.path.dirname(out), exist_ok=True)
-    open(out, "w").write(s)
-    return out
 
 
 CHECK = dict(
